@@ -1,6 +1,7 @@
 package forwarder
 
 import (
+	"encoding/binary"
 	"fmt"
 	"net"
 	"sync"
@@ -255,6 +256,13 @@ func convertSlice(ports [][]uint16) []byte {
 
 func (g *Gtp5g) newSdfFilter(i *ie.IE, srcIf uint8) (nl.AttrList, error) {
 	var attrs nl.AttrList
+
+	// the IE decoder slices the flow description by its length field without
+	// checking it against the IE's payload: reject an over-long length here
+	if p := i.Payload; len(p) >= 4 && p[0]&0x01 != 0 &&
+		int(binary.BigEndian.Uint16(p[2:4])) > len(p)-4 {
+		return nil, errors.New("SDF Filter: flow description exceeds the IE")
+	}
 
 	v, err := i.SDFFilter()
 	if err != nil {
